@@ -473,6 +473,68 @@ def measure_long(bprime, factor, what, root):
     return peak
 
 
+def many_records_case(rng, run_seed, tier):
+    """Scale outlier in the other direction: well over a thousand short
+    records, mixed line widths, LF/CRLF; index, derived assembly and a stream
+    of every record (both strands) compared across buffer sizes."""
+    import hashlib
+
+    from tola.assembly.assembly import Assembly
+    from tola.assembly.fragment import Fragment
+    from tola.assembly.scaffold import Scaffold
+    from tola.fasta import index as index_mod
+    from tola.fasta.stream import FastaStream
+
+    root = sandbox.make(ID, tier, run_seed, "M")
+    try:
+        fa = Path(root) / "many.fa"
+        n = rng.randint(1100, 1600)
+        with open(fa, "w", newline="") as fh:
+            for k in range(n):
+                L = rng.choice([1, 2, 5, 17, 50, 61, 120])
+                w = rng.choice([1, 7, 60, 200])
+                nl = "\r\n" if rng.random() < 0.1 else "\n"
+                seq = "".join(rng.choice("ACGTN") for _ in range(L))
+                fh.write(f">r{k}{nl}")
+                for j in range(0, L, w):
+                    fh.write(seq[j:j + w] + nl)
+        ref = None
+        bufs = [250_000, 64, 7, 1]
+        for b in bufs:
+            idx, asm = index_mod.index_fasta_file(fa, b)
+            fi = index_mod.FastaIndex(fa, b)
+            fi.index = idx
+            out_asm = Assembly("a")
+            for k, (name, info) in enumerate(idx.items()):
+                if info.length:
+                    sc = Scaffold("o" + name)
+                    sc.add_row(Fragment(name, 1, info.length, 1 if k % 2 else -1))
+                    out_asm.add_scaffold(sc)
+            h = hashlib.blake2b(digest_size=16)
+
+            class H:
+                def write(self, d):
+                    h.update(d)
+
+            FastaStream(H(), fi).write_assembly(out_asm)
+            fh_ = fi.__dict__.get("fasta_fileandle")
+            if fh_ is not None:
+                fh_.close()
+            got = (index_canon(idx), asm_canon(asm), h.hexdigest())
+            if ref is None:
+                ref = (b, got)
+            elif got != ref[1]:
+                what = "index" if got[0] != ref[1][0] else ("derived assembly" if got[1] != ref[1][1] else "streamed bytes")
+                return {
+                    "oracle": "differential_large", "site": what + " (many records)",
+                    "detail": f"{n} records: {what} differ between buffer_size={b} and buffer_size={ref[0]}",
+                    "replay": {"property": ID, "kind": "large", "seed": run_seed, "which": 1, "expect": {"oracle": "differential_large"}},
+                }, len(bufs)
+        return None, len(bufs)
+    finally:
+        sandbox.remove(root)
+
+
 def large_case(run_seed, tier, which):
     """Scale outlier for the differential oracle: a record of several hundred
     kilobases indexed and streamed (forward, reverse, gap) with buffers around
@@ -488,6 +550,8 @@ def large_case(run_seed, tier, which):
     from tola.fasta.stream import FastaStream
 
     rng = random.Random(run_seed)
+    if which % 3 == 1:
+        return many_records_case(rng, run_seed, tier)
     L = rng.choice([262144, 300000, 393216, 524288 + rng.randint(0, 5000)])
     root = sandbox.make(ID, tier, run_seed, "G")
     bufs = sorted({4096, 65536, 65537, 131072, 196608, 250_000, 262144, rng.choice([99_991, 131071, 200_000])}, reverse=True)
@@ -590,7 +654,7 @@ def run_one(run_seed, i, tier):
             "extra": {"allocator_measurements": [m]},
             "sample": m if i == 0 else None,
         }
-    nlarge = 2 if tier == "quick" else 24
+    nlarge = 3 if tier == "quick" else 24
     if i < nlong + nlarge:
         v, n = large_case(run_seed, tier, i - nlong)
         return {
@@ -612,7 +676,7 @@ def replay(obj):
         v, m = long_case(obj["bprime"], obj["what"], 0xC13, "quick")
         return {"digest": digest_of(m["what"]), "violations": [v] if v else []}
     if obj.get("kind") == "large":
-        v, n = large_case(obj["seed"], "quick", 0)
+        v, n = large_case(obj["seed"], "quick", obj.get("which", 0))
         return {"digest": digest_of(["large", v is None]), "violations": [v] if v else []}
     return execute_case(obj["case"], 0xC13, "quick", tag="r")
 
